@@ -29,6 +29,11 @@ func knownSite(src string, roots []ast.Node, prop string) string {
 				if prop == "C05" || prop == "C06" {
 					return "site:ChangeStreamForAll.All"
 				}
+			case *ast.CallExpr:
+				// a function named SAFE_CAST / REPLACE_FIELDS (only expressible with back quotes) is printed bare
+				if prop == "C01" && x.Func != nil && len(x.Func.Idents) == 1 && (strings.EqualFold(x.Func.Idents[0].Name, "SAFE_CAST") || strings.EqualFold(x.Func.Idents[0].Name, "REPLACE_FIELDS")) {
+					return "site:quotedWord.call"
+				}
 			case *ast.AsTypeName:
 				// SELECT AS `value`: a type named value is printed without back quotes and re-read as SELECT AS VALUE
 				if prop == "C01" && x.TypeName != nil && len(x.TypeName.Path) == 1 && strings.EqualFold(x.TypeName.Path[0].Name, "VALUE") {
@@ -80,6 +85,10 @@ func neutralise(site, src string) string {
 				case "BOOL", "INT64", "FLOAT32", "FLOAT64", "DATE", "TIMESTAMP", "NUMERIC", "STRING", "BYTES", "JSON", "TOKENLIST":
 					cuts = append(cuts, cut{int(t.Pos), int(t.End), t.AsString})
 				}
+			}
+		case "site:quotedWord.call":
+			if t.Kind == token.TokenIdent && strings.HasPrefix(t.Raw, "`") && toks[i+1].Kind == "(" && (strings.EqualFold(t.AsString, "SAFE_CAST") || strings.EqualFold(t.AsString, "REPLACE_FIELDS")) {
+				cuts = append(cuts, cut{int(t.Pos), int(t.End), "`" + t.AsString + "x`"})
 			}
 		case "site:AsTypeName.value":
 			if t.Kind == "AS" && toks[i+1].Kind == token.TokenIdent && strings.HasPrefix(toks[i+1].Raw, "`") && strings.EqualFold(toks[i+1].AsString, "VALUE") {
